@@ -283,10 +283,18 @@ inductive Outcome where
 
 def U.outcome (u : U) : Outcome := if u.timedOut then .timeout else .fromExit u.leaked
 
-/-! ## `terminate_child`'s Stop / Continue arms as the translator reads them (tools/extract.py group `termchild`) -/
+/-! ## Request-loop arms as the translator reads them (tools/extract.py groups `termchild`, `delayloop`) -/
 
-/-- the effect of one statement of a `terminate_child` arm (as the translator names it) on the unit -/
-def applyAction (u : U) (a : String) : U × List Act :=
+/-- run the rows of an arm in order: a row's actions are performed when its guard holds at that moment -/
+def interpArm (apply : U → String → U × List Act) (guard : U → String → Bool) (arm : List (String × List String)) (u : U) : U × List Act :=
+  arm.foldl (fun acc row =>
+    if guard acc.1 row.1 then
+      row.2.foldl (fun acc2 a => ((apply acc2.1 a).1, acc2.2 ++ (apply acc2.1 a).2)) acc
+    else acc) (u, [])
+
+/-- `terminate_child`: `stopwatch` is the attempt's, `sleep` the grace period's, `waiting_stopwatch` its own; `break Killed`
+    returns to the main loop, whose `child.wait()` then returns -/
+def applyTerm (u : U) (a : String) : U × List Act :=
   if a = "stopwatch.pause" then ({ u with sw := { u.sw with paused := true } }, [])
   else if a = "sleep.pause" then ({ u with gs := { u.gs with paused := true } }, [])
   else if a = "waiting_stopwatch.pause" then ({ u with ws := { u.ws with paused := true } }, [])
@@ -296,17 +304,32 @@ def applyAction (u : U) (a : String) : U × List Act :=
   else if a = "job_control:Stop" then (u, [.kill .tstp])
   else if a = "job_control:Continue" then (u, [.kill .cont])
   else if a = "ack" then (u, [.ack])
+  else if a = "kill-group" then (u, [.kill .kill])
+  else if a = "break:Killed" then ({ u with phase := .running }, [])
   else (u, [.panic])
 
-def guardHolds (u : U) (g : String) : Bool :=
+def guardTerm (u : U) (g : String) : Bool :=
   if g = "" then true
   else if g = "stopwatch.is_paused" then u.sw.paused
   else if g = "sleep.is_paused" then u.gs.paused
   else if g = "waiting_stopwatch.is_paused" then u.ws.paused
   else false
 
-/-- run the statements of an arm in order -/
-def interpArm (arm : List (String × String)) (u : U) : U × List Act :=
-  arm.foldl (fun acc ga => if guardHolds acc.1 ga.1 then ((applyAction acc.1 ga.2).1, acc.2 ++ (applyAction acc.1 ga.2).2) else acc) (u, [])
+/-- `handle_delay_between_attempts`: `sleep` is the retry delay's, `waiting_stopwatch` the delay's own; `break` ends the delay -/
+def applyDelay (u : U) (a : String) : U × List Act :=
+  if a = "sleep.pause" then ({ u with ds := { u.ds with paused := true } }, [])
+  else if a = "waiting_stopwatch.pause" then ({ u with ws := { u.ws with paused := true } }, [])
+  else if a = "sleep.resume" then ({ u with ds := { u.ds with paused := false } }, [])
+  else if a = "waiting_stopwatch.resume" then ({ u with ws := { u.ws with paused := false } }, [])
+  else if a = "ack" then (u, [.ack])
+  else if a = "break" then ({ u with phase := .done }, [])
+  else if a = "info" then (u, [.info .delayBeforeNextAttempt])
+  else (u, [.panic])
+
+def guardDelay (u : U) (g : String) : Bool :=
+  if g = "" then true
+  else if g = "sleep.is_paused" then u.ds.paused
+  else if g = "waiting_stopwatch.is_paused" then u.ws.paused
+  else false
 
 end NextestModel.Unit
